@@ -26,13 +26,14 @@ Bounded(T) == \A n \in 1..Len(T.data) : T.data[n] \in (-ValueBound)..ValueBound
 
 WellFormed(e) ==
     /\ {"id", "cfg", "in", "runs"} \subseteq DOMAIN e
-    /\ {"op", "fshapes", "wlen", "coreshape", "pshapes", "hasw", "pden", "bad", "skip", "tr", "modes", "mix", "dens", "cden", "imk", "outdtype", "late", "mag", "bfshapes", "wshape", "tmag", "zero", "alldtype"} \subseteq DOMAIN e.cfg
+    /\ {"op", "fshapes", "wlen", "coreshape", "pshapes", "hasw", "pden", "bad", "skip", "tr", "modes", "mix", "dens", "cden", "imk", "outdtype", "late", "mag", "bfshapes", "wshape", "tmag", "zero", "alldtype", "pnear"} \subseteq DOMAIN e.cfg
+    /\ e.cfg.pnear \in {-1, 0, 1}
     /\ e.cfg.tmag \in -600..600
     /\ e.cfg.late \in BOOLEAN /\ e.cfg.mag \in -600..600
     /\ (e.cfg.late => "base" \in DOMAIN e.in /\ "fs" \in DOMAIN e.in.base /\ TensOKs(e.in.base.fs))
     /\ e.cfg.op \in Kinds
     /\ e.cfg.tr \in BOOLEAN /\ e.cfg.skip \in -1..8 /\ \A j \in 1..Len(e.cfg.modes) : e.cfg.modes[j] \in 0..8
-    /\ (HasOpt(e.cfg) => e.cfg.op = "tucker" /\ e.cfg.bad = "none")       \* view options exist for Tucker only
+    /\ (HasOpt(e.cfg) => e.cfg.op = "tucker" /\ e.cfg.bad \in {"none", "fcols"})       \* view options exist for Tucker only
     /\ e.cfg.imk \in 0..Len(e.in.fs)
     /\ (e.cfg.imk > 0 => /\ "im" \in DOMAIN e.in /\ IsLoggedT(e.in.im) /\ IsTAny(e.in.im) /\ Bounded(e.in.im)
                          /\ e.in.im.shape = e.in.fs[e.cfg.imk].shape)
@@ -50,7 +51,9 @@ WellFormed(e) ==
     /\ \A k \in DOMAIN e.runs :
           /\ RunFields \subseteq DOMAIN e.runs[k]
           /\ e.runs[k].rejected \in BOOLEAN /\ e.runs[k].raised \in BOOLEAN /\ e.runs[k].exact \in BOOLEAN /\ e.runs[k].convert \in BOOLEAN
-          /\ {"has", "fin0", "fin3", "q3", "q0", "iszero"} \subseteq DOMAIN e.runs[k].norm
+          /\ {"has", "fin0", "fin3", "fin6", "q3", "q0", "q6", "iszero"} \subseteq DOMAIN e.runs[k].norm
+          /\ "xnorms" \in DOMAIN e.runs[k]
+          /\ \A x \in 1..Len(e.runs[k].xnorms) : {"has", "fin0", "fin3", "fin6", "q3", "q0", "q6", "iszero"} \subseteq DOMAIN e.runs[k].xnorms[x]
           /\ (e.cfg.op = "cp" => "masked" \in DOMAIN e.runs[k])
           /\ (e.cfg.op = "ttm" => "matrix" \in DOMAIN e.runs[k])
           /\ (e.cfg.op = "p2" => {"slices", "slice1", "slices_nv", "slice1_nv"} \subseteq DOMAIN e.runs[k])
@@ -78,7 +81,13 @@ Verdict(e) ==
     ELSE
     LET kd == e.cfg.op  in == e.in  R == e.runs  keys == DOMAIN e.runs  c == e.cfg
         opt == HasOpt(e.cfg) IN
-    IF ~opt /\ MustReject(kd, in)
+    IF opt /\ c.bad # "none"
+    THEN \* an invalid (core, factors) pair converted UNDER OPTIONS: refused by every conversion, on both backends, iff a
+         \* factor that is actually applied does not fit the core
+         (IF ~TuckerOptMismatch(in, c.skip, c.tr, c.modes) THEN <<"ok", "-">>
+          ELSE LET failing == {k \in keys : ~R[k].rejected} IN
+               IF failing # {} THEN <<"InvalidConverted", CHOOSE k \in failing : TRUE>> ELSE <<"ok", "-">>)
+    ELSE IF ~opt /\ MustReject(kd, in)
     THEN \* every entry point must refuse: the validator / wrapper constructor runs (reported first) and the
          \* `convert` runs (all conversion functions of the format called on the raw tuple; rejected = all raised)
          LET failing == {k \in keys : ~R[k].rejected}
@@ -118,10 +127,16 @@ Verdict(e) ==
                     /\ \A m \in 0..(N - 1) : CV(r.unf[m + 1], Unfold(D, m), Unfold(DI, m))
         AbsD(x) == IF x < 0 THEN -x ELSE x
         \* (under a total-magnitude scaling 2^e the harness multiplies the reported norm by 2^-e, exactly, before squaring)
-        NormOK(r) == \/ ~r.norm.has \/ ~neednorm
-                     \/ /\ (n2 = 0 => r.norm.iszero)                        \* an exactly-zero tensor has norm exactly 0
-                        /\ IF n2 <= NormCap THEN r.norm.fin3 /\ AbsD(r.norm.q3 - NormScale * n2) <= NormScale * F32Tol
-                                            ELSE r.norm.fin0 /\ AbsD(r.norm.q0 - n2) <= F32Tol
+        \* q6 = rint(norm^2 * 10^6): for N2 <= FineCap the comparison resolves 5e-7 / N2 relative (float64 error ~1e-15)
+        FineCap == 1900
+        OneNormOK(nr) ==
+                     \/ ~nr.has
+                     \/ /\ (n2 = 0 => nr.iszero)                           \* an exactly-zero tensor has norm exactly 0
+                        /\ IF n2 <= FineCap /\ c.mix # "f32_all" THEN nr.fin6 /\ nr.q6 = 1000000 * n2
+                           ELSE IF n2 <= NormCap THEN nr.fin3 /\ AbsD(nr.q3 - NormScale * n2) <= NormScale * F32Tol
+                           ELSE nr.fin0 /\ AbsD(nr.q0 - n2) <= F32Tol
+        \* the norm view, and every other public norm-named method the wrapper exposes (xnorms)
+        NormOK(r) == ~neednorm \/ (OneNormOK(r.norm) /\ \A x \in 1..Len(r.xnorms) : OneNormOK(r.xnorms[x]))
         SlicesOK(sl) == /\ Len(sl) = Len(in.ps)
                         /\ \A s \in 1..Len(sl) : CV(sl[s], P2Slice(in, s), P2Slice(inI, s))
         Clause(r) ==
